@@ -10,6 +10,7 @@ import (
 	"math/rand/v2"
 	"net/http"
 	"net/http/httptest"
+	"net/url"
 	"os"
 	"path/filepath"
 	"sort"
@@ -31,7 +32,8 @@ type c16Service struct {
 type c16Scenario struct {
 	Idx      int          `json:"idx"`
 	Services []c16Service `json:"services"`
-	Build    string       `json:"build"` // order | sub-first | flip-root | remove-root | restore
+	Build    string       `json:"build"`                    // order | sub-first | flip-root | remove-root | restore
+	Reserved []string     `json:"reserved_paths,omitempty"` // paths of the reserved namespaces asked of every host, next to c16Paths
 }
 
 var (
@@ -39,9 +41,38 @@ var (
 	c16ReqHosts = []string{"t0.example", "t0.example:80", "t0.example:8080", "t1.example", "x.wild.example", "y.wild.example", "y.wild.example:443", "unbound.example", "10.1.2.3"}
 	c16Paths    = []string{"/", "/api", "/api/x", "/app/y/z", "//evil.example/x", "/a%2Fb", "/p%20q/%41", "/api/"}
 	c16Queries  = []string{"", "?", "?a=1&b=2", "?q=a;b&&c", "?x=%zz", "?u=https://evil.example/%23"}
+	// paths in the namespaces that some other layer of the proxy (or of the web) gives a meaning of its
+	// own: the ACME HTTP-01 challenge directory that a certificate manager's HTTP handler answers, the
+	// rest of /.well-known, the health-check path. "Every path" of the statement includes them: the
+	// redirect is owed whatever handler sits (or does not sit) in front of the service - a static
+	// certificate has none, a sub-path service has no certificate manager at all. Sub-path services
+	// are also deployed ON these namespaces (c16SubPrefixes).
+	c16ReservedPaths = []string{
+		"/.well-known/acme-challenge/tok-1", "/.well-known/acme-challenge/", "/.well-known/acme-challenge", "/.well-known/acme-challenge/a/b.txt",
+		"/.well-known/acme-challenge/%74ok", "/.WELL-KNOWN/acme-challenge/tok", "/.well-known/security.txt", "/.well-known/", "/.well-known/pki-validation/f.txt",
+		"/api/.well-known/acme-challenge/tok", "/up", "/up/", "/api/up",
+	}
+	c16SubPrefixes = []string{"/api", "/app/y", "/api", "/app/y", "/.well-known", "/.well-known/acme-challenge"}
 )
 
-func c16Gen(rng *rand.Rand, idx int) c16Scenario {
+const c16ChallengeDir = "/.well-known/acme-challenge/"
+
+// c16PathKind: which reserved namespace a (decoded) path lies in, for the coverage classes.
+func c16PathKind(decoded string) string {
+	switch {
+	case strings.HasPrefix(decoded, c16ChallengeDir):
+		return "acme-challenge"
+	case strings.HasPrefix(decoded, "/.well-known"):
+		return "well-known"
+	case strings.Contains(strings.ToLower(decoded), "well-known"):
+		return "well-known-lookalike"
+	case strings.HasSuffix(strings.TrimSuffix(decoded, "/"), "/up"):
+		return "health-path"
+	}
+	return ""
+}
+
+func c16Gen(rng *rand.Rand, idx int, nReserved int) c16Scenario {
 	sc := c16Scenario{Idx: idx, Build: pick(rng, []string{"order", "order", "sub-first", "flip-root", "remove-root", "restore", "move-root", "move-root"})}
 	// root-path services
 	n := 0
@@ -66,7 +97,7 @@ func c16Gen(rng *rand.Rand, idx int) c16Scenario {
 		s := c16Service{}
 		s.Name = fmt.Sprintf("sub%d", i)
 		s.Hosts = []string{pick(rng, c16Hosts)}
-		s.Prefixes = []string{pick(rng, []string{"/api", "/app/y"})}
+		s.Prefixes = []string{pick(rng, c16SubPrefixes)}
 		ok := true
 		for _, o := range sc.Services {
 			if c04Conflicts(s.c04Service, o.c04Service) {
@@ -80,6 +111,13 @@ func c16Gen(rng *rand.Rand, idx int) c16Scenario {
 	for i := range sc.Services {
 		sc.Services[i].Fwd = rng.IntN(2) == 0
 		sc.Services[i].Strip = rng.IntN(2) == 0 // what the target sees of the path has no bearing on redirects
+	}
+	// reserved-namespace paths of this scenario: always one inside the challenge directory, the rest drawn
+	sc.Reserved = []string{c16ReservedPaths[rng.IntN(2)]}
+	for _, i := range rng.Perm(len(c16ReservedPaths)) {
+		if len(sc.Reserved) < nReserved && !contains(sc.Reserved, c16ReservedPaths[i]) {
+			sc.Reserved = append(sc.Reserved, c16ReservedPaths[i])
+		}
 	}
 	return sc
 }
@@ -97,7 +135,7 @@ func TestC16(t *testing.T) {
 	defer run.Finish()
 	n := run.N(300, 10000)
 	for i := 0; i < n; i++ {
-		sc := c16Gen(run.Rand(i), i)
+		sc := c16Gen(run.Rand(i), i, run.N(4, 7))
 		if !run.Mine(i, sc) {
 			continue
 		}
@@ -364,7 +402,7 @@ func c16Run(t *testing.T, run *Run, sc c16Scenario, rng *rand.Rand) {
 	var refusedCases [][3]string // sni, host header, path
 	// (a) plain HTTP
 	for _, h := range c16ReqHosts {
-		for _, p := range c16Paths {
+		for _, p := range append(c16Paths[:len(c16Paths):len(c16Paths)], sc.Reserved...) {
 			q := pick(rng, c16Queries)
 			nreq++
 			id := fmt.Sprintf("p%d", nreq)
@@ -390,6 +428,24 @@ func c16Run(t *testing.T, run *Run, sc c16Scenario, rng *rand.Rand) {
 			}
 			en, red := effective(name)
 			reached := r.Target != ""
+			kind, certKind := "", "none" // reserved namespace of the path; what stands in front of the service's own handler
+			if dec, err := url.PathUnescape(p); err == nil {
+				kind = c16PathKind(dec)
+			}
+			if isRoot(byName[name]) && byName[name].TLS != "" {
+				certKind = strings.TrimSuffix(byName[name].TLS, "-noredirect")
+			}
+			if en && red && kind == "acme-challenge" && certKind == "acme" {
+				// an automatic-TLS service answers the challenge directory from its certificate manager
+				// (that is how its certificate is obtained at all); whether that answer is owed to be a
+				// 301 is not decidable from the statement. What is: it is never forwarded.
+				if reached || r.Status == 200 {
+					fail("plain-http-forwarded:challenge-path", "plain request Host %q %s%s to automatic-TLS service %s: status=%d target=%q, a plain-HTTP request is never forwarded", h, p, q, name, r.Status, r.Target)
+					return
+				}
+				classes["reserved-path|acme-challenge|answered-by-certificate-manager"] = true
+				continue
+			}
 			if en && red {
 				host := refHost(h)
 				want := "https://" + host + p + q
@@ -398,7 +454,10 @@ func c16Run(t *testing.T, run *Run, sc c16Scenario, rng *rand.Rand) {
 					return
 				}
 				classes["redirect|root="+fmt.Sprint(isRoot(byName[name]))] = true
-				if len(redirCases) < 24 {
+				if kind != "" {
+					classes[fmt.Sprintf("reserved-path|%s|redirect|root=%v|in-front=%s", kind, isRoot(byName[name]), certKind)] = true
+				}
+				if len(redirCases) < 24 || (kind != "" && len(redirCases) < 32) {
 					redirCases = append(redirCases, [3]string{h, p + q, want})
 				}
 			} else if r.Status != 200 || r.Target != "svc-"+name+":80" {
@@ -406,6 +465,9 @@ func c16Run(t *testing.T, run *Run, sc c16Scenario, rng *rand.Rand) {
 				return
 			} else {
 				classes[fmt.Sprintf("plain-forwarded|tls=%v|root=%v", en, isRoot(byName[name]))] = true
+				if kind != "" {
+					classes[fmt.Sprintf("reserved-path|%s|plain-forwarded|tls=%v", kind, en)] = true
+				}
 			}
 		}
 	}
